@@ -450,3 +450,13 @@ package j5convert
 //@   assert at comment#0 presence: propertyDesc != nil && propertyDesc.Name != nil && propertyDesc.Proto3Optional != nil && *propertyDesc.Proto3Optional ==>
 //@   |   propertyDesc.OneofIndex != nil && len((*message).descriptor.OneofDecl) >= 1 && *propertyDesc.OneofIndex == len((*message).descriptor.OneofDecl) - 1
 //@   |   && (*message).descriptor.OneofDecl[len((*message).descriptor.OneofDecl) - 1] != nil && *(*message).descriptor.OneofDecl[len((*message).descriptor.OneofDecl) - 1].Name == "_" + *propertyDesc.Name
+
+// ---- inline types are referred to by a name that cannot be captured (C07) -------------------------------------------
+// A relative type name is looked up from the innermost scope, so "Foo.Foo" written inside message Foo finds
+// the nested Foo first and the field does not link. A reference to an inline type must therefore carry its
+// package (a fully qualified name). KNOWN FINDING on the unchanged tree (known_findings.txt): inline
+// references are emitted as relative names, and an existing test pins that spelling.
+//@ func (*conversionVisitor).resolveType
+//@   assert at return#2 inline.qualified.enum: result0.Package != ""
+//@   assert at return#3 inline.qualified.oneof: result0.Package != ""
+//@   assert at return#4 inline.qualified.object: result0.Package != ""
